@@ -10,18 +10,15 @@ Open Scope N_scope.
 
 (** premises: queries and keys below 2^26 clusters, freq_sum of the loaded dictionary at most 2^53 *)
 Definition short_input (v : val) : Prop :=
-  (forall q, In q (in_queries (prep v)) -> short (snd (snd q)))
+  (forall q, In q (prep_queries v) -> short (snd (snd q)))
   /\ (forall d0, load_b (in_dfile v) = Some d0 -> short_dict d0 /\ (freq_sum d0 <= P53N)%N).
 
-(** * stripping the floats gives the answers of the rational level *)
-Lemma strip_get fs o : (match get_fv fs o with L [L [f; _]] => L [f] | g => g end) = opt_v n_v o.
-Proof. destruct o as [f|]; reflexivity. Qed.
-
-Lemma strip_answer_fv segs (d : dict) (q : query) :
-  closest_fl (fst q) (snd (snd q)) d = closest (fst q) segs (snd (snd q)) d ->
-  strip_answer (answer_fv d q) = answer_v segs d q.
+(** * stripping the floats gives the answer of the rational level *)
+Lemma strip_answer_fv (d : dict) (q : query) :
+  strip_answer (answer_fv d q)
+  = L [opt_v n_v (get (fst (snd q)) d); closest_v (closest_fl (fst q) (snd (snd q)) d)].
 Proof.
-  intro E. unfold answer_fv, answer_v, strip_answer. rewrite <- E.
+  unfold answer_fv, strip_answer.
   destruct (get (fst (snd q)) d) as [f|]; destruct (closest_fl (fst q) (snd (snd q)) d) as [|e|]; reflexivity.
 Qed.
 
@@ -62,51 +59,42 @@ Qed.
 (** * the output of the float model *)
 Lemma in_dfile_modelize v : in_dfile (modelize v) = in_dfile v.
 Proof. unfold in_dfile. rewrite modelize_nth by discriminate. reflexivity. Qed.
-Lemma in_segs_modelize v : in_segs (modelize v) = in_segs v.
-Proof. unfold in_segs. rewrite modelize_nth by discriminate. reflexivity. Qed.
 Lemma in_queries_modelize v : in_queries (modelize v) = in_queries v.
 Proof. unfold in_queries. rewrite modelize_nth by discriminate. reflexivity. Qed.
-
-Lemma map_ext_In' {A B} (f g : A -> B) l : (forall x, In x l -> f x = g x) -> map f l = map g l.
-Proof. intro H. apply map_ext_in. exact H. Qed.
 
 Lemma check_run_f_l v : short_input v -> check_C20f v (run_C20f v) = true.
 Proof.
   intros [Hq Hl]. unfold check_C20f.
-  set (p := modelize (prep v)).
-  assert (Hld : load (in_dfile p) = load_b (in_dfile v)).
-  { unfold p. rewrite in_dfile_modelize. apply load_prep_l. }
-  assert (Hsegs : in_segs p = prep_segs (in_dfile v)).
-  { unfold p. rewrite in_segs_modelize. apply in_segs_prep. }
-  assert (Hqs : in_queries p = in_queries (prep v)).
-  { unfold p. apply in_queries_modelize. }
+  set (p := modelize (prep0 v)).
+  assert (Hdf : in_dfile p = prep_dfile (in_dfile v)).
+  { unfold p. rewrite in_dfile_modelize. apply in_dfile_prep0. }
+  assert (Hqs : in_queries p = []).
+  { unfold p. rewrite in_queries_modelize. reflexivity. }
+  assert (Hrun0 : run_C20 p = L [v_nth 0 (run_C20 p); v_nth 1 (run_C20 p); lres_v (loaded_dict v); L []]).
+  { unfold run_C20. cbn [v_nth nth]. rewrite Hdf, Hqs. fold (loaded_dict v).
+    destruct (loaded_dict v); reflexivity. }
   assert (Hrun : run_C20f v =
-     L [v_nth 0 (run_C20 p); v_nth 1 (run_C20 p); v_nth 2 (run_C20 p);
-        match option_map sorted_d (load (in_dfile p)) with
-        | Some d => list_v (answer_fv d) (in_queries p)
+     L [v_nth 0 (run_C20 p); v_nth 1 (run_C20 p); lres_v (loaded_dict v);
+        match loaded_dict v with
+        | Some d => list_v (answer_fv d) (prep_queries v)
         | None => L []
         end]).
-  { unfold run_C20f. fold p. unfold run_C20. cbn [v_nth nth]. reflexivity. }
-  assert (Hstrip : strip_out (run_C20f v) = run_C20 p).
-  { rewrite Hrun. unfold run_C20. cbn [v_nth nth].
-    destruct (load (in_dfile p)) as [d0|] eqn:El; cbn [option_map]; unfold list_v; cbn [strip_out map]; [|reflexivity].
-    rewrite map_map. do 6 f_equal. apply map_ext_In'. intros q Hin.
-    apply strip_answer_fv.
-    destruct (Hl d0 (eq_sym Hld)) as [Sd _].
-    assert (P : Permutation (sorted_d d0) d0) by apply sorted_d_perm.
-    rewrite (closest_fl_eq_l (fst q) (snd (snd q)) (sorted_d d0));
-      [|apply Hq; rewrite <- Hqs; exact Hin|exact (short_dict_perm _ _ P Sd)].
-    rewrite Hsegs. unfold prep_segs.
-    assert (Hps : load (prep_dfile (in_dfile v)) = Some d0) by (rewrite prep_dfile_load; symmetry; exact Hld).
-    rewrite Hps. symmetry. apply closest_segs_of_dict_l. intros e He. apply in_map.
-    eapply Permutation_in; [exact P|exact He]. }
-  rewrite Hstrip. change (check_C20u (prep v) (run_C20 p)) with (check_C20u (prep v) (run_C20u (prep v))).
-  rewrite (check_run_u_l (prep v) (segs_cover_prep_l v)). cbn [andb].
-  rewrite Hrun. unfold run_C20. cbn [v_nth nth].
-  destruct (load (in_dfile p)) as [d0|] eqn:El; cbn [option_map lres_v opt_v]; [|reflexivity].
-  unfold n_v. unfold list_v. apply forallb_forall. intros a Ha. apply in_map_iff in Ha as (q & <- & Hin).
-  destruct (Hl d0 (eq_sym Hld)) as [Sd Fd].
+  { unfold run_C20f. fold p. rewrite Hrun0. reflexivity. }
+  assert (Hstrip : strip0 (run_C20f v) = run_C20 p).
+  { rewrite Hrun, Hrun0. reflexivity. }
+  rewrite Hstrip. change (check_C20u (prep0 v) (run_C20 p)) with (check_C20u (prep0 v) (run_C20u (prep0 v))).
+  rewrite (check_run_u_l (prep0 v) (segs_cover_prep0_l v)). cbn [andb].
+  rewrite Hrun. unfold loaded_dict. rewrite prep_dfile_load.
+  destruct (load_b (in_dfile v)) as [d0|] eqn:El; cbn [option_map]; [|reflexivity].
+  destruct (Hl d0 eq_refl) as [Sd Fd].
   assert (P : Permutation (sorted_d d0) d0) by apply sorted_d_perm.
-  apply rel_ok_answer; [apply Hq; rewrite <- Hqs; exact Hin|exact (short_dict_perm _ _ P Sd)|].
-  rewrite (freq_sum_perm _ _ P). exact Fd.
+  pose proof (short_dict_perm _ _ P Sd) as Sd'.
+  rewrite v_lres_lres_v. unfold lres_v, opt_v. unfold list_v.
+  apply andb_true_iff. split.
+  - apply all2b_map. intros q Hin. rewrite strip_answer_fv.
+    rewrite (closest_fl_eq_l (fst q) (snd (snd q)) (sorted_d d0) (Hq q Hin) Sd').
+    apply check_closest_m_ok.
+  - apply forallb_forall. intros a Ha. apply in_map_iff in Ha as (q & <- & Hin).
+    apply rel_ok_answer; [apply Hq; exact Hin|exact Sd'|].
+    rewrite (freq_sum_perm _ _ P). exact Fd.
 Qed.
